@@ -19,7 +19,7 @@ def Justified (fs : FS) (c : Cfg) (_path : Bytes) : Outcome → Prop
   | .unavailable => False
   | .sidecar p id enc =>
     ∃ f suf, p = f ++ suf ∧ (enc, suf) ∈ c.pre ∧ enc ∈ c.accepted ∧
-      UnderS c.rootC f ∧ c.hidden f = false ∧ (∃ id0, fs f = .file id0) ∧ fs p = .file id
+      UnderS c.rootC f ∧ c.hidden f = false ∧ (∃ id0, fs f = .file id0) ∧ fs p = .file id ∧ c.hidden p = false
 
 theorem notFoundOut_justified (fs : FS) (c : Cfg) (path : Bytes) : Justified fs c path (notFoundOut c) := by
   unfold notFoundOut
@@ -48,7 +48,7 @@ def SidecarName (c : Cfg) (f n : Bytes) : Prop := ∃ ae suf, (ae, suf) ∈ c.pr
 
 theorem findSidecar_spec (fs : FS) (c : Cfg) (f : Bytes) : ∀ (l : List Bytes) (p : Bytes) (id : Nat) (ae : Bytes),
     (findSidecar fs c f l).1 = some (p, id, ae) →
-      ∃ suf, p = f ++ suf ∧ (ae, suf) ∈ c.pre ∧ ae ∈ l ∧ fs p = .file id := by
+      ∃ suf, p = f ++ suf ∧ (ae, suf) ∈ c.pre ∧ ae ∈ l ∧ fs p = .file id ∧ c.hidden p = false := by
   intro l
   induction l with
   | nil => intro p id ae h; simp [findSidecar] at h
@@ -60,13 +60,17 @@ theorem findSidecar_spec (fs : FS) (c : Cfg) (f : Bytes) : ∀ (l : List Bytes) 
       exact ⟨suf, h1, h2, by simp [h3], h4⟩
     · rename_i suf hs
       split at h
-      · rename_i id' hf
-        simp at h
-        obtain ⟨rfl, rfl, rfl⟩ := h
-        exact ⟨suf, rfl, sidecarSuffix_mem hs, by simp, hf⟩
-      · rw [withTrace_fst'] at h
-        obtain ⟨suf', h1, h2, h3, h4⟩ := ih p id ae h
+      · obtain ⟨suf', h1, h2, h3, h4⟩ := ih p id ae h
         exact ⟨suf', h1, h2, by simp [h3], h4⟩
+      · rename_i hh
+        split at h
+        · rename_i id' hf
+          simp at h
+          obtain ⟨rfl, rfl, rfl⟩ := h
+          exact ⟨suf, rfl, sidecarSuffix_mem hs, by simp, hf, by simpa using hh⟩
+        · rw [withTrace_fst'] at h
+          obtain ⟨suf', h1, h2, h3, h4⟩ := ih p id ae h
+          exact ⟨suf', h1, h2, by simp [h3], h4⟩
 
 theorem findSidecar_trace (fs : FS) (c : Cfg) (f : Bytes) : ∀ (l : List Bytes) (n : Bytes),
     n ∈ (findSidecar fs c f l).2 → SidecarName c f n := by
@@ -80,11 +84,13 @@ theorem findSidecar_trace (fs : FS) (c : Cfg) (f : Bytes) : ∀ (l : List Bytes)
     · exact ih n h
     · rename_i suf hs
       split at h
-      · simp at h; exact ⟨a, suf, sidecarSuffix_mem hs, h⟩
-      · simp [withTrace] at h
-        rcases h with h | h
-        · exact ⟨a, suf, sidecarSuffix_mem hs, h⟩
-        · exact ih n h
+      · exact ih n h
+      · split at h
+        · simp at h; exact ⟨a, suf, sidecarSuffix_mem hs, h⟩
+        · simp [withTrace] at h
+          rcases h with h | h
+          · exact ⟨a, suf, sidecarSuffix_mem hs, h⟩
+          · exact ih n h
 
 theorem serveContent_justified {fs : FS} {c : Cfg} {f : Bytes} {id : Nat} (path : Bytes)
     (h : fs f = .file id) (hu : UnderS c.rootC f) (hh : c.hidden f = false) :
@@ -93,8 +99,8 @@ theorem serveContent_justified {fs : FS} {c : Cfg} {f : Bytes} {id : Nat} (path 
   split
   · rename_i p id' ae t hfs
     have : (findSidecar fs c f c.accepted).1 = some (p, id', ae) := by rw [hfs]
-    obtain ⟨suf, h1, h2, h3, h4⟩ := findSidecar_spec fs c f c.accepted p id' ae this
-    exact ⟨f, suf, h1, h2, h3, hu, hh, ⟨id, h⟩, h4⟩
+    obtain ⟨suf, h1, h2, h3, h4, h5⟩ := findSidecar_spec fs c f c.accepted p id' ae this
+    exact ⟨f, suf, h1, h2, h3, hu, hh, ⟨id, h⟩, h4, h5⟩
   · rw [openAndServe_of_file h]
     exact ⟨hu, hh, h⟩
 
